@@ -714,7 +714,7 @@ def stream_partial(c, rng, big):
                         goals.insert(rng.randrange(4), dict(var="y", where="path", priority=pmid, order=2, tmin=None, tmax=None))
                     rng.shuffle(goals)
                     scripts = [[True] * 3, [True, False, True], [True, True, False]]
-                    for script in (scripts if big else [rng.choice(scripts + scripts[:1])]):
+                    for script in (scripts if (big and variant != "minabs") else [rng.choice(scripts + scripts[:1])]):
                         cases.append(dict(variant=variant, times=times, p=rng.choice([0.25, 0.5, 1.0]), q=rng.choice([0.0, 1.0]),
                                           cvals=[[rng.choice([0.0, 0.5, 1.0]) for _ in times] for _ in range(rng.choice([1, 1, 2]))],
                                           goals=goals, script=script, skip=[],
